@@ -3,6 +3,7 @@ package checks
 import (
 	"context"
 	"encoding/json"
+	"errors"
 	"fmt"
 	"sort"
 	"strings"
@@ -336,12 +337,19 @@ func (w *c05world) do(ev string, tok string) {
 		}
 		return fmt.Sprint(unknown)
 	}
+	// The callers' contexts carry explicit causes, as an application's may: an operation
+	// whose context ended must still report the context's own error (context.Canceled /
+	// context.DeadlineExceeded), not the cause.
+	withCause := func(why string) (context.Context, context.CancelFunc) {
+		ctx, cancel := context.WithCancelCause(context.Background())
+		return ctx, func() { cancel(errors.New(why)) }
+	}
 	switch ev {
 	case "call1":
-		ctx, cancel := context.WithCancel(context.Background())
+		ctx, cancel := withCause("the user lost interest")
 		issue("r1", ctx, cancel)
 	case "call2":
-		ctx, cancel := context.WithTimeout(context.Background(), time.Second)
+		ctx, cancel := context.WithTimeoutCause(context.Background(), time.Second, errors.New("the budget ran out"))
 		issue("r2", ctx, cancel)
 	case "call3":
 		ctx, cancel := context.WithCancel(context.Background())
@@ -352,7 +360,7 @@ func (w *c05world) do(ev string, tok string) {
 		issue("r4", ctx, cancel)
 	case "batch":
 		if _, dup := w.cancels["b1"]; !dup {
-			ctx, cancel := context.WithCancel(context.Background())
+			ctx, cancel := withCause("the batch was abandoned")
 			w.cancels["b1"] = cancel
 			rig.GoBatch("b1", ctx, []jrpc2.Spec{{Method: "m", Params: []string{"r5"}}, {Method: "note", Notify: true}, {Method: "m", Params: []string{"r6"}}})
 		}
@@ -451,7 +459,7 @@ func c05outcomeOK(want, got string) bool {
 		return got == rest || c05outcomeOK("anyerror", got)
 	}
 	if want == "anyerror" {
-		return got != "nil" && !strings.HasPrefix(got, "ok:") && got != ""
+		return got != "nil" && !strings.HasPrefix(got, "ok:") && got != "" && !strings.Contains(got, "+stray-result=") && !strings.Contains(got, "+marshals-with")
 	}
 	return want == got
 }
